@@ -707,6 +707,10 @@ func (c *Ctx) assertObligation(fname string, x *ssa.TypeAssert) {
 		c.ok("PANIC-ASSERT", fname, construct, x.Pos(), "the element was found by a search whose predicate holds only behind a successful `, ok` assertion of the same map entry to this type; nothing is written in between", "")
 		return
 	}
+	if c.assertByFilteredKeysY2(x) {
+		c.ok("PANIC-ASSERT", fname, construct, x.Pos(), "the key is an element of a list that only receives keys of this map behind a successful `, ok` assertion of their entry to this type; nothing is written in between", "")
+		return
+	}
 	c.rep.add(Obligation{Rule: "PANIC-ASSERT", Func: fname, Construct: construct, Pos: c.pos(x.Pos()), Status: stViolation, Kind: "undecided", Detail: "type assertion without `, ok` on a value whose dynamic type is not established: it panics when the value has another type"})
 }
 
@@ -815,11 +819,14 @@ func (c *Ctx) mapNonNil(v ssa.Value, at ssa.Instruction, seen map[ssa.Value]bool
 		}
 		return n > 0
 	case *ssa.Phi:
+		if c.flagGuardedPhiY2(x, at, seen) {
+			return true // assigned together with a flag that is tested before the use (ext_y2.go)
+		}
 		for i, e := range x.Edges {
 			if nonNilOnEdge(e, x.Block().Preds[i], x.Block()) {
 				continue // `if m == nil { m = make(…) }`: on the other edge the test said non-nil
 			}
-			if !c.mapNonNil(e, at, seen) {
+			if !c.mapNonNilOnEdgeY2(x, i, at, seen) {
 				return false
 			}
 		}
@@ -829,7 +836,19 @@ func (c *Ctx) mapNonNil(v ssa.Value, at ssa.Instruction, seen map[ssa.Value]bool
 	case *ssa.Extract:
 		// v, ok := iface.(Dict): non-nil by the boxed-Dict invariant when ok (a nil Dict is never boxed)
 		if ta, ok := x.Tuple.(*ssa.TypeAssert); ok && x.Index == 0 {
-			return typeIsNamed(ta.AssertedType, c.typeObj("postscript", "Dict"))
+			if !typeIsNamed(ta.AssertedType, c.typeObj("postscript", "Dict")) {
+				return false
+			}
+			// … when ok: the use (or the edge on which the value flows into a φ) lies behind the flag
+			if at == nil || at.Block() == nil {
+				return false
+			}
+			for _, cd := range domConds(at.Block()) {
+				if ex, isEx := cd.v.(*ssa.Extract); isEx && cd.truth && ex.Tuple == x.Tuple && ex.Index == 1 {
+					return true
+				}
+			}
+			return false
 		}
 		if call, ok := x.Tuple.(*ssa.Call); ok {
 			return c.returnsNonNilMap(call, x.Index) || c.returnsNonNilMapUnlessError(call, x.Index, at) || c.returnsNonNilMapWhen(call, x.Index, at)
@@ -1230,6 +1249,13 @@ func (c *Ctx) nilDerefObligations(fns []*ssa.Function) {
 					}
 				}
 			}
+			how := "dominated by a nil test of the same value"
+			if !guarded {
+				// the test was made by the caller of this function, or by a helper that reports its outcome (ext_y2.go)
+				if why2, ok := c.nilGuardInterprocY2(fn, ins, ptr); ok {
+					guarded, how = true, why2
+				}
+			}
 			pk := construct
 			if guarded {
 				pk += "/g"
@@ -1239,7 +1265,7 @@ func (c *Ctx) nilDerefObligations(fns []*ssa.Function) {
 			}
 			donePtr[pk] = true
 			if guarded {
-				c.ok("PANIC-NILDEREF", fname, construct, ins.Pos(), "dominated by a nil test of the same value", "")
+				c.ok("PANIC-NILDEREF", fname, construct, ins.Pos(), how, "")
 				return
 			}
 			c.rep.add(Obligation{Rule: "PANIC-NILDEREF", Func: fname, Construct: construct, Pos: c.pos(ins.Pos()), Status: stViolation, Kind: "undecided", Detail: "a pointer " + why + " is dereferenced without a dominating nil test"})
@@ -1538,13 +1564,34 @@ func (c *Ctx) classifyLoop(fn *ssa.Function, h *ssa.BasicBlock, body map[*ssa.Ba
 		return "P5 work list", why
 	}
 	// P3/P4: every cycle through the loop passes a consuming call / a budgeted dispatch
-	cutP3 := func(b *ssa.BasicBlock) bool {
+	consumesP3 := func(b *ssa.BasicBlock) bool {
 		for _, ins := range b.Instrs {
 			if call, ok := ins.(ssa.CallInstruction); ok {
+				if _, isDefer := ins.(*ssa.Defer); isDefer {
+					continue
+				}
+				if _, isGo := ins.(*ssa.Go); isGo {
+					continue
+				}
 				if sc := call.Common().StaticCallee(); sc != nil && (consumingCalls[calleeName(sc)] || c.consumingFn(sc)) {
 					return true
 				}
 				if call.Common().IsInvoke() && call.Common().Method.Name() == "Read" {
+					return true
+				}
+			}
+		}
+		return false
+	}
+	cutP3 := func(b *ssa.BasicBlock) bool {
+		if consumesP3(b) {
+			return true
+		}
+		// a helper of the module that makes a consuming call on every path to its return (the byte
+		// reader wrapped into "next byte of the line", "next byte that is not white space", …)
+		for _, ins := range b.Instrs {
+			if call, ok := ins.(*ssa.Call); ok {
+				if g := call.Call.StaticCallee(); g != nil && c.inModule(g) && mustPassBlock(g, consumesP3, 2) {
 					return true
 				}
 			}
@@ -1723,16 +1770,8 @@ func mustCall(g, target *ssa.Function, depth int) bool {
 // into it, and the same map is passed on to the callee.
 func visitedSetGate(f *ssa.Function, site ssa.CallInstruction) bool {
 	com := site.Common()
-	for pi, p := range f.Params {
-		mt, ok := p.Type().Underlying().(*types.Map)
-		if !ok {
-			continue
-		}
-		if b, ok := mt.Elem().Underlying().(*types.Basic); !ok || b.Kind() != types.Bool {
-			if _, isStruct := mt.Elem().Underlying().(*types.Struct); !isStruct {
-				continue
-			}
-		}
+	for _, vs := range visitedSetPlacesY2(f) {
+		pi, p, isSet := vs.pi, vs.p, vs.isSet
 		// the same set goes to the callee
 		args := com.Args
 		if pi >= len(args) || origin(args[pi]) != ssa.Value(p) {
@@ -1742,7 +1781,7 @@ func visitedSetGate(f *ssa.Function, site ssa.CallInstruction) bool {
 		for _, b := range f.Blocks {
 			for _, ins := range b.Instrs {
 				mu, ok := ins.(*ssa.MapUpdate)
-				if !ok || origin(mu.Map) != ssa.Value(p) || !dominatesInstr(mu, site) {
+				if !ok || !isSet(mu.Map) || !dominatesInstr(mu, site) {
 					continue
 				}
 				if !dependsOnParam(mu.Key, f, p) {
@@ -1751,7 +1790,7 @@ func visitedSetGate(f *ssa.Function, site ssa.CallInstruction) bool {
 				// … and a dominating test that the key was absent
 				for _, cd := range domConds(site.Block()) {
 					lk := lookupOf(cd.v)
-					if lk == nil || origin(lk.X) != ssa.Value(p) || !sameKey(lk.Index, mu.Key) {
+					if lk == nil || !isSet(lk.X) || !sameKey(lk.Index, mu.Key) {
 						continue
 					}
 					if !cd.truth {
